@@ -7,6 +7,11 @@ ALL = ["C%02d" % i for i in range(1, 21)]
 
 # id -> (level category, engine, technique, level text, level note, design ref)
 CLAIMED = {
+    "C14": ("model_checking", "S",
+            "stateless model checking (iterative context bounding, preemption bound 2 quick / 3 thorough) of the real subscriber built with the instrumentation overlay: N1 two publishers synced concurrently with a reading and a never-reading listener; N2 two successive syncs while a listener registers/cancels at scheduler-chosen moments and a reader checks the latest-synced value at the moment each event arrives; N3 failing announce-triggered sync",
+            "Every explored schedule is an execution of the real code: each produced notification (CID, publisher, count = hook calls of that sync, error flag) must reach every listener registered before the sync was invoked and cancelled after it returned exactly once and in completion order; a never-read listener must not keep sync threads from finishing (quiescence, not a timeout, decides); cancelled listeners' channels end closed after their queued events; the latest-synced value already shows an event's CID when it is received. Evidence reports per scenario the bound all shards completed.",
+            "Cooperative scheduling at synchronization operations only; priority selects in source order; chain blocks pre-stored in N1/N2 so that only head requests remain; quick tier completes bound 0 for N1/N2 on all shards and higher bounds partially (reported).",
+            "DESIGN.md 6/C14, 13"),
     "C15": ("model_checking", "S",
             "stateless model checking (iterative context bounding, preemption bound 2 quick / 3 thorough) of the real subscriber built with the instrumentation overlay: explicit sync || Close (one and two Close callers), announce-triggered sync || Close, listener registration/cancellation || Close, and each of 11 entry points called after Close returned; Close can start at every scheduling point of a sync",
             "Every explored schedule is an execution of the real code. 'Never returns' is decided by quiescence in the bubble with the caller unfinished (no timeout); after the first Close return the observation log must contain no block-hook call and no destination-store write; a running explicit sync ends successfully or is refused with the shutdown error; listener channels end closed; no goroutine with a library frame remains after cleanup. Evidence reports per scenario the bound all shards completed.",
